@@ -43,6 +43,17 @@ func checkMap(v mapVersion) string {
 	if fmt.Sprint(got) != fmt.Sprint(want) {
 		return fmt.Sprintf("All() yields %q want %q", got, want)
 	}
+	for stopAfter := 1; stopAfter <= len(want); stopAfter++ {
+		if msg := verifEarlyStop(func(yield func() bool) { v.m.All()(func(string, int) bool { return yield() }) }, stopAfter); msg != "" {
+			return fmt.Sprintf("All() with a consumer stopping after %d: %s", stopAfter, msg)
+		}
+		if msg := verifEarlyStop(func(yield func() bool) { v.m.Prefix("")(func(string, int) bool { return yield() }) }, stopAfter); msg != "" {
+			return fmt.Sprintf("Prefix(\"\") with a consumer stopping after %d: %s", stopAfter, msg)
+		}
+		if msg := verifEarlyStop(func(yield func() bool) { v.m.LowerBound("")(func(string, int) bool { return yield() }) }, stopAfter); msg != "" {
+			return fmt.Sprintf("LowerBound(\"\") with a consumer stopping after %d: %s", stopAfter, msg)
+		}
+	}
 	for _, q := range mapKeys {
 		val, ok := v.m.Get(q)
 		mv, mok := v.model[q]
@@ -248,6 +259,12 @@ func TestVerifProbe_SetAndRoundTrip(t *testing.T) {
 			if !sort.StringsAreSorted(got) || len(got) != len(ma) {
 				t.Fatalf("VERIF-FAIL: set: All() of %v yields %q", ma, got)
 			}
+			// a consumer that stops early sees a prefix of the iteration and is not called again
+			for stopAfter := 1; stopAfter <= len(got); stopAfter++ {
+				if msg := verifEarlyStop(func(yield func() bool) { sa.All()(func(string) bool { return yield() }) }, stopAfter); msg != "" {
+					t.Fatalf("VERIF-FAIL: set: All() of %v with a consumer stopping after %d: %s", ma, stopAfter, msg)
+				}
+			}
 			// deleting every element one by one
 			s := sa
 			for _, k := range mapKeys {
@@ -357,4 +374,23 @@ func verifNormRT(v verifRTVal) verifRTVal {
 		v.M = nil
 	}
 	return v
+}
+
+// verifEarlyStop drives an iteration with a consumer that returns false at its stopAfter-th call
+// and reports a panic or any call made after that.
+func verifEarlyStop(iterate func(yield func() bool), stopAfter int) (msg string) {
+	calls := 0
+	defer func() {
+		if r := recover(); r != nil {
+			msg = fmt.Sprintf("panic: %v", r)
+		}
+	}()
+	iterate(func() bool {
+		calls++
+		return calls < stopAfter
+	})
+	if calls != stopAfter {
+		return fmt.Sprintf("consumer called %d times", calls)
+	}
+	return ""
 }
